@@ -538,9 +538,48 @@ Ltac le_step :=
   | |- Le _ ?r => let h := head_of r in progress (unfold h)   (* a composite field reader *)
   end.
 
+(* the parameter loop of SVCBBase.from_text *)
+Lemma le_svcb_params_loop : forall fuel st params, Le st (RdTextM.svcb_params_loop fuel st params).
+Proof.
+  induction fuel as [|f IH]; intros st params; cbn [RdTextM.svcb_params_loop]; [exact Logic.I|].
+  destruct (T.get0 st) as [[t s1]|e|e] eqn:G; cbn [bind]; try exact Logic.I.
+  pose proof G as G'. apply get_mz in G as (_ & A & _).
+  destruct (T.is_eol_or_eof t).
+  { destruct (T.unget s1 t) as [s2|e|e] eqn:U; cbn [bind Le]; auto. eapply get_unget_mz; eauto. }
+  destruct (negb (T.is_identifier t)); [exact Logic.I|]. cbv zeta.
+  destruct (RdTextM.split_once 61 (T.tvalue t)) as [[key rest]|].
+  - destruct (T.is_nil key); [exact Logic.I|].
+    destruct (T.is_nil rest).
+    + destruct (T.get s1 true false) as [[q s2]|e|e] eqn:G2; cbn [bind fst snd]; try exact Logic.I.
+      apply get_mz in G2 as (_ & A2 & _).
+      destruct (negb (T.is_quoted q)); [exact Logic.I|].
+      apply le_pure. intros ps. eapply le_weaken; [apply IH|lia].
+    + apply le_pure. intros ps. eapply le_weaken; [apply IH|lia].
+  - apply le_pure. intros ps. eapply le_weaken; [apply IH|lia].
+Qed.
+
+Lemma le_svcb_from_text c st : Le st (RdTextM.svcb_from_text c st).
+Proof.
+  unfold RdTextM.svcb_from_text.
+  eapply le_bind'; [apply le_get_uint|lia|]. intros p s1 H1. cbn [fst snd].
+  eapply le_bind'; [apply le_get_name|exact H1|]. intros n s2 H2. cbn [fst snd].
+  match goal with |- Le st (bind ?X _) =>
+    assert (HX : match X with Ok s3 => (mz s3 <= mz st)%nat | _ => True end) end.
+  { destruct (p =? 0); [|exact H2].
+    destruct (T.get0 s2) as [[t s3]|e|e] eqn:G; cbn [bind fst snd]; try exact Logic.I.
+    destruct (negb (T.is_eol_or_eof t)); [exact Logic.I|].
+    destruct (T.unget s3 t) as [s4|e|e] eqn:U; try exact Logic.I.
+    pose proof (get_unget_mz _ _ _ _ _ _ G U). lia. }
+  match goal with |- Le st (bind ?X _) => destruct X as [s3|e|e] end; cbn [bind]; try exact Logic.I.
+  eapply le_bind'; [apply le_svcb_params_loop|exact HX|]. intros pl s4 H4. cbn [fst snd].
+  destruct (RdTextM.svcb_ctor_ok pl); [exact H4|exact Logic.I].
+Qed.
+
 Lemma le_parse_field c f st : Le st (RdTextM.parse_field c f st).
 Proof.
-  destruct f; cbn [RdTextM.parse_field]; try apply le_rest_bytes; repeat le_step.
+  destruct f; cbn [RdTextM.parse_field]; try apply le_rest_bytes; try (solve [repeat le_step]).
+  (* the whole-record readers *)
+  all: try (eapply le_bind'; [apply le_svcb_from_text|lia|]; intros [[p n] ps] s1 H; cbn [Le]; exact H).
 Qed.
 
 Lemma le_parse_fields c : forall fs st, Le st (RdTextM.parse_fields c fs st).
